@@ -90,7 +90,6 @@ func analyseUpdateFn(w *World, fn *ssa.Function, depth int) *updAnalysis {
 		return a
 	}
 	a.fn = fn
-	a.hasLoop = hasLoop(fn)
 	var err error
 	if a.pLogID, err = paramByType(fn, "string"); err != nil {
 		a.err = err.Error()
@@ -117,6 +116,8 @@ func analyseUpdateFn(w *World, fn *ssa.Function, depth int) *updAnalysis {
 	a.logsMap = fieldByType(a.pRecv, "map[string]witness.LogInfo")
 	a.eng = w.engine(depth, 1)
 	sums := a.eng.Explore(fn)
+	// loops decided by constants (a literal table of checks) are unrolled exactly; only a cut enumeration is inexact
+	a.hasLoop = a.eng.stats.loopcut > 0
 	for i, s := range sums {
 		if s.Trunc != "" {
 			a.err = "path enumeration truncated: " + s.Trunc
@@ -211,7 +212,7 @@ func (a *updAnalysis) view(w *World, i int, s Summary) *updPath {
 		v.class = "bad-signature"
 	case v.writeOps != nil && failed(s, *v.writeOps):
 		v.class = "writeops-failed"
-	case v.getLatest != nil && failed(s, *v.getLatest) && v.notFound:
+	case v.getLatest != nil && v.notFound: // an affirmative NotFound status implies a non-nil error (status.Code(nil) is OK)
 		v.class = "first-use"
 	case v.getLatest != nil && failed(s, *v.getLatest):
 		v.class = "read-failed"
@@ -251,7 +252,7 @@ func (a *updAnalysis) guard(r *Run, rule string) bool {
 		return false
 	}
 	if a.hasLoop {
-		r.Undecided(rule, fnUpdate, "", "Update acquired a loop: exact path enumeration is no longer possible")
+		r.Undecided(rule, fnUpdate, "", "Update acquired a loop whose iteration count depends on run-time values: exact path enumeration is no longer possible")
 		return false
 	}
 	// vacuity floor: at least one success path and one Set site
@@ -290,7 +291,7 @@ func ruleAcceptGuard(w *World, r *Run, a *updAnalysis, rule string) {
 			key := a.key(v, what)
 			if v.prev == nil || !okBefore(s, *v.parsePrev, ev.Seq) {
 				// no successfully parsed previous checkpoint: must be affirmative NotFound
-				ok := v.getLatest != nil && v.notFound && failed(s, *v.getLatest)
+				ok := v.getLatest != nil && v.notFound
 				r.Check(ok, rule, key, pos, what+" reached without a verified previous checkpoint and without an affirmative NotFound from the store; path: "+pathString(a.eng, s))
 				continue
 			}
@@ -312,11 +313,7 @@ func ruleAcceptGuard(w *World, r *Run, a *updAnalysis, rule string) {
 				if !((be.Args[0] == hp && be.Args[1] == hn) || (be.Args[0] == hn && be.Args[1] == hp)) {
 					continue
 				}
-				if be.Callee == cBytesEq {
-					if k, val, _ := boolFact(s, be.Res); k && val {
-						rootEq = true
-					}
-				} else if k, val, _ := eqConstFact(s, be.Res, "1"); k && val {
+				if k, val, _ := eqCallFact(s, be); k && val {
 					rootEq = true
 				}
 			}
@@ -650,7 +647,7 @@ func ruleTofuOnlyOnNotFound(w *World, r *Run, a *updAnalysis, rule string) {
 		if v.getLatest == nil {
 			continue
 		}
-		if failed(v.s, *v.getLatest) {
+		if failed(v.s, *v.getLatest) || v.notFound {
 			key := a.key(v, "read of stored checkpoint failed")
 			pos := w.pos(v.getLatest.Pos)
 			if v.notFound {
@@ -754,7 +751,7 @@ func ruleErrNotDropped(w *World, r *Run, a *updAnalysis, rule string) {
 			key := a.key(v, "error of "+short(ev.Callee)+" checked")
 			k, isNil, _ := nilFact(v.s, errRes(ev))
 			if v.outcome == "accepted" {
-				if ev.Callee == cGetLatest && k && !isNil && v.notFound {
+				if ev.Callee == cGetLatest && v.notFound && !(k && isNil) {
 					r.Pass(rule, key, w.pos(ev.Pos), "") // affirmative NotFound: the first-use arm
 					continue
 				}
@@ -845,10 +842,10 @@ func ruleHonestStep(w *World, r *Run, a *updAnalysis, rule string) {
 			// honest valuation of the non-order predicates
 			ok := true
 			for _, be := range v.rootEqs {
-				if k, val, _ := boolFact(s, be.Res); k && c.equal && !val {
+				if k, val, _ := eqCallFact(s, be); k && c.equal && !val {
 					ok = false
 				}
-				if k, val, _ := boolFact(s, be.Res); k && !c.equal && val {
+				if k, val, _ := eqCallFact(s, be); k && !c.equal && val {
 					// different sizes with equal roots cannot happen for an honest log of distinct sizes; ignore
 					_ = val
 				}
@@ -1161,7 +1158,7 @@ func ruleDecisionTable(w *World, r *Run, a *updAnalysis, rule string) {
 	// first use, within the claim: old size 0, empty proof
 	firstUse := func(pi pathInfo) bool {
 		v := pi.v
-		return v.known == 1 && v.parseNext != nil && okBefore(v.s, *v.parseNext, 0) && v.getLatest != nil && failed(v.s, *v.getLatest) && v.notFound
+		return v.known == 1 && v.parseNext != nil && okBefore(v.s, *v.parseNext, 0) && v.getLatest != nil && v.notFound
 	}
 	evalCell("known=T sig=T stored=NotFound old=0 proof=empty", "accepted/cosigned", func(pi pathInfo) bool {
 		return firstUse(pi) && admits(pi.v.s.Facts, ordFact{"==", a.pOld, zero, true}, ordFact{"<", izero, plen, false})
@@ -1211,7 +1208,7 @@ func ruleDecisionTable(w *World, r *Run, a *updAnalysis, rule string) {
 							return false
 						}
 						for _, be := range v.rootEqs {
-							if k, val, _ := boolFact(s, be.Res); k && val != rootEq {
+							if k, val, _ := eqCallFact(s, be); k && val != rootEq {
 								return false
 							}
 						}
